@@ -81,6 +81,13 @@ func (env *SpecEnv) quantSort(ty string) (string, types.Type) {
 	if _, ok := env.e.g().sliceElem[ty]; ok {
 		return ty, nil
 	}
+	if strings.HasPrefix(ty, "Slice_") {
+		// slice sort named before any code mentioned it: declare it from its element type
+		if _, et := env.namedSort(strings.TrimPrefix(ty, "Slice_")); et != nil {
+			st := types.NewSlice(et)
+			return env.e.g().SortOf(st), st
+		}
+	}
 	return env.namedSort(ty)
 }
 
@@ -596,7 +603,63 @@ func unmarshalFun(g *Gen, vs string) string {
 	g.DeclFun(un, []string{bs}, vs)
 	g.DeclFun(mar, []string{vs}, bs)
 	g.Axiom("proto.roundtrip."+vs, fmt.Sprintf("(forall ((v %s)) (! (and (= (%s (%s v)) v) (not (%s_nil (%s v)))) :pattern ((%s v))))", vs, un, mar, bs, mar, mar))
+	// a decoded value is well typed: machine-integer fields are within their ranges, slice lengths are non-negative
+	if t := g.structNamed[vs]; t != nil {
+		if fs := typeInvFormulas(g, fmt.Sprintf("(%s b!u)", un), t, 0); len(fs) > 0 {
+			g.Axiom("proto.typed."+vs, fmt.Sprintf("(forall ((b!u %s)) (! %s :pattern ((%s b!u))))", bs, andTerms(fs), un))
+		}
+	}
 	return un
+}
+
+// typeInvFormulas: the type invariant of a term of Go type t as SMT formulas (same content as Enc.typeInv).
+func typeInvFormulas(g *Gen, term string, t types.Type, depth int) []string {
+	t = types.Unalias(t)
+	if b := intBasic(t); b != nil {
+		if _, ok := specialSort(typeFullName(t)); ok {
+			return nil
+		}
+		lo, hi := intRange(b)
+		if lo == "" {
+			return nil
+		}
+		return []string{fmt.Sprintf("(<= %s %s)", lo, term), fmt.Sprintf("(<= %s %s)", term, hi)}
+	}
+	if depth > 3 {
+		return nil
+	}
+	if n, ok := t.(*types.Named); ok {
+		if _, sp := specialSort(typeFullName(n)); sp {
+			return nil
+		}
+	}
+	var out []string
+	if st, ok := t.Underlying().(*types.Struct); ok {
+		s := g.SortOf(t)
+		if g.structOf[s] == nil {
+			return nil
+		}
+		for i := 0; i < st.NumFields(); i++ {
+			out = append(out, typeInvFormulas(g, g.FieldSel(s, st, i, term), st.Field(i).Type(), depth+1)...)
+		}
+		return out
+	}
+	if sl, ok := t.Underlying().(*types.Slice); ok {
+		s := g.SortOf(t)
+		out = append(out, fmt.Sprintf("(>= (%s_len %s) 0)", s, term), fmt.Sprintf("(<= (%s_len %s) 4611686018427387904)", s, term),
+			fmt.Sprintf("(=> (%s_nil %s) (= (%s_len %s) 0))", s, term, s, term))
+		if b := intBasic(sl.Elem()); b != nil {
+			lo, hi := intRange(b)
+			out = append(out, fmt.Sprintf("(forall ((i!r Int)) (! (and (<= %s (select (%s_arr %s) i!r)) (<= (select (%s_arr %s) i!r) %s)) :pattern ((select (%s_arr %s) i!r))))", lo, s, term, s, term, hi, s, term))
+		} else if _, isStruct := types.Unalias(sl.Elem()).Underlying().(*types.Struct); isStruct && depth <= 1 {
+			// elements of a slice of structs (one level): their integer fields are in range
+			el := fmt.Sprintf("(select (%s_arr %s) i!s)", s, term)
+			if fs := typeInvFormulas(g, el, sl.Elem(), depth+2); len(fs) > 0 {
+				out = append(out, fmt.Sprintf("(forall ((i!s Int)) (! %s :pattern (%s)))", andTerms(fs), el))
+			}
+		}
+	}
+	return out
 }
 
 func marshalFun(g *Gen, vs string) string {
